@@ -41,9 +41,9 @@ def get_new_loop_event_type_from_graph(graph: "DiGraph[Event]") -> str:
     """
     max_loop_event = 0
     for event in graph.nodes:
-        if LOOP_EVENT_TYPE in event.event_type:
+        if isinstance(event, LoopEvent):
             max_loop_event = max(
-                int(event.event_type.split("_")[1]),
+                int(event.event_type.split("_")[-1]),
                 max_loop_event,
             )
     return f"{LOOP_EVENT_TYPE}_{max_loop_event + 1}"
